@@ -203,7 +203,7 @@ func genSelect(rt *rapid.T, m *model, o *op, withKey bool) string {
 				}
 			}
 			if len(free) == 0 {
-				return strings.TrimSuffix(strings.TrimSuffix(form, "+omit"), "omit") + "!"
+				return strings.TrimSuffix(form, "+omit") // every field is selected: nothing left to omit
 			}
 			i := rapid.SampledFrom(free).Draw(rt, "omit1")
 			o.Omit = append(o.Omit, spell(rt, m.Fields[i], "omit1"))
@@ -662,7 +662,9 @@ const ruleText = "C10: a model type built with reflect.StructOf (integer key + 3
 	"Create map/maps, each create also as upsert DoNothing/UpdateAll/DoUpdates) with a Select/Omit form (none, list by field name or column name, '*', Omit, combinations), " +
 	"zero, non-zero and gorm.Expr values, and a model key and/or a Where condition; the table after the write must equal, cell by cell, the table predicted by an independent " +
 	"model of the statement. non-trivial = a field with a restricting tag is given a value, a zero value is given, and the rows the write may touch are a non-empty strict subset; " +
-	"distinct = model + row keys + operation"
+	"distinct = model + row keys + operation. Not generated (documentation silent): updates with neither key nor condition (C09), key collisions without an OnConflict clause (C05), " +
+	"Select('*') with a separate value whose key is zero, a hook-running map update that names a tracked update-time field, a create-from-map key that names an ignored field, " +
+	"rows that propose no column, DoUpdates naming a denied column; accepted either way: tracked time cells of created rows that a Select list / a map does not name, and the creation time under UpdateAll"
 
 type caseInfo struct {
 	restrictedGiven, zeroGiven bool
@@ -834,7 +836,9 @@ func checkCase(rt *rapid.T, m *model, o *op, selForm string) {
 
 func TestC10(t *testing.T) {
 	evid.Rule(ruleText)
-	evid.Assume("SQLite's resolution of INSERT .. ON CONFLICT and its rowid assignment (max+1) are trusted; the column named by gorm's NamingStrategy is the physical column of an ignored field")
+	evid.Assume("the column named by gorm's NamingStrategy is the physical column of an ignored field")
+	evid.Assume("a bare -> or ->:false tag removes write permission (as -> does in the documented permission table); -:migration leaves it")
+	evid.Assume("Save with a non-zero key sets tracked update-time fields to the current time also when it ends up inserting (documented for Save)")
 	rapid.Check(t, func(rt *rapid.T) {
 		m := genModel(rt)
 		o, selForm := genOp(rt, m)
